@@ -60,6 +60,17 @@ CHECKS["C07"] = dict(
     text="2,560 (quick) / 32,000 (thorough) expression trees over the documented const-evaluable constructs, a third of them operator templates on (boundary, boundary) operand pairs of one integer type; const rejected iff run time panics, equal values otherwise, folded result identical to run time incl. panic data.",
     note="Trusted: run-time behaviour under the default configuration as the reference; evaluation failures recognised by diagnostic codes E2128/E2130/E2131/E2008; E2127 (unsupported constant) means the generator left the subset and is counted, not judged.")
 
+CHECKS["C14"] = dict(
+    level="exploration", design="DESIGN.md 3/C14",
+    technique="mutation-based fuzzing of Sierra programs (enumerated single-point mutants + proptest multi-point mutants + mutated felt serialisations) through registry / metadata / compile in crash-isolated workers; oracle: every entry point returns (no panic, abort or runaway)",
+    text="~575k mutants per quick run: single-point mutations of every corpus Sierra program <= 400 statements (thinned cross products; complete in thorough), multi-point mutants and felt vectors through extract_sierra_program; stages ProgramRegistryInfo::new, calc_metadata (linear, non-linear on small programs), calc_metadata_ap_change_only, compile with and without gas checks. Panics are keyed by call site; listed panic sites are reported as KNOWN-FINDING and the search continues past them.",
+    note="Trusted: catch_unwind + subprocess isolation, 8 MiB stacks, 16 GiB address-space limit. One known shape (type-declaration cycle through a circuit gate: unbounded recursion) is excluded by construction and counted. Only programs that parse are mutated (the text parser is C18's).")
+CHECKS["C15"] = dict(
+    level="exploration", design="DESIGN.md 3/C15",
+    technique="differential testing against an independent checker: accepted Sierra mutants (near-miss mutations of corpus programs) must pass my own worklist data-flow typing/linearity checker over the libfunc signatures",
+    text="~530k near-miss mutants per quick run, of which ~11k are accepted by the compiler and differ from their origin; each accepted one is re-checked for argument types, exact-once use, no overwrite, branch arity and alignment, merge agreement, return types with nothing left over and dup/drop legality. All 400+ unmutated corpus programs are the false-alarm control (a checker rejection there makes the run inconclusive).",
+    note="Trusted: libfunc signatures from the program registry; my checker (oracle/sierra_check.rs) and its table of non-droppable / non-duplicable resource types. Reference expressions, ap tracking and gas are outside the checker (C17/C04 cover their consequences).")
+
 PENDING_REASON = "check not built yet in this session (planned in DESIGN.md section 3; the property itself is amenable to the technique)"
 
 def main():
